@@ -16,7 +16,7 @@ cdec <line> <col> | text                → ok <offset>              (the LSP cl
 capply <l> <c> <l> <c> | text | new     → ok <result cps>          (the LSP client)
 ```
 -/
-namespace Harper.Driver
+namespace Harper.Driver.PosConv
 open Harper Harper.Proto Harper.PosConv
 
 /-- `cp:len16` words → text and the `len16` table -/
@@ -132,4 +132,4 @@ def handleCapply (args : List String) : String :=
     | _, _, _ => "bad-op"
   | _ => "bad-op"
 
-end Harper.Driver
+end Harper.Driver.PosConv
